@@ -22,7 +22,27 @@ PIECES = [b"wire", b"const", b"register", b" ", b"\n", b"\r\n", b"\r", b"\t", b"
           b"&&", b"||", b"!", b"~", b"<<", b"in", b"1", b"0", "\u00b2".encode(), "\u0663".encode(), "\u00bd".encode(), "\u2167".encode(), b"\"", b"'", b"$", b"@", b"\\"]
 
 
+def deep(rnd):
+    """expressions nested thousands deep: a long chain of one left-associative operator, nested case expressions, a
+    long run of unary operators, deep parentheses"""
+    n = rnd.choice([50, 300, 1000, 3000, 6000, 20000])
+    kind = rnd.choice(["sum", "mux", "unary", "parens", "and"])
+    if kind == "sum":
+        e = "+".join(["1"] * n)
+    elif kind == "and":
+        e = " && ".join(["1"] * n)
+    elif kind == "mux":
+        e = "[1:" * n + "1" + "]" * n
+    elif kind == "unary":
+        e = "-" * n + "1"
+    else:
+        e = "(" * n + "1" + ")" * n
+    return ("pc = %s;\nStat = STAT_HLT;\n" % e).encode(), "deep-%s-%d" % (kind, n)
+
+
 def gen(rnd):
+    if rnd.random() < 0.02:
+        return deep(rnd)
     mode = rnd.randrange(8)
     if mode == 0:
         return bytes(rnd.randrange(256) for _ in range(rnd.randrange(0, 60))), "random-bytes"
